@@ -1,3 +1,5 @@
+//go:build verif_c05
+
 package main
 
 // C05 — API histories as text lines: generator (seeded) and executor (real
